@@ -200,16 +200,20 @@ int flush_pubsub_msgs(void *data, const char *key, void *value) {
         if (!stopping_mod && !poisoned && mm->msg.system && mm->msg.topic && !strcmp(mm->msg.topic, M_PS_MOD_POISONPILL)) {
             poisoned = true;
         }
-        if (!stopping_mod && !poisoned && m_mod_is(mod, M_MOD_RUNNING)) {
+        /* A oneshot subscription fires once: messages matched before it did are not delivered any more */
+        const bool stale = mm->sub && (mm->sub->flags & M_SRC_ONESHOT) && mm->sub->ps_src.fired;
+        if (!stopping_mod && !poisoned && !stale && m_mod_is(mod, M_MOD_RUNNING)) {
             M_DEBUG("Flushing enqueued pubsub message for module '%s'.\n", mod->name);
             evt_priv_t *msg = new_evt(mm->sub);
             if (msg && flushed) {
                 msg->evt.ps_evt = &mm->msg;
                 msg->evt.userdata = mm->sub ? mm->sub->userptr : NULL;
                 /* A oneshot subscription is gone once it fired, just like in the receive loop */
-                if (mm->sub && (mm->sub->flags & M_SRC_ONESHOT) &&
-                    m_map_get(mod->subscriptions, mm->sub->ps_src.topic) == mm->sub) {
-                    m_map_remove(mod->subscriptions, mm->sub->ps_src.topic);
+                if (mm->sub && (mm->sub->flags & M_SRC_ONESHOT)) {
+                    mm->sub->ps_src.fired = true;
+                    if (m_map_get(mod->subscriptions, mm->sub->ps_src.topic) == mm->sub) {
+                        m_map_remove(mod->subscriptions, mm->sub->ps_src.topic);
+                    }
                 }
                 m_queue_enqueue(flushed, msg);
                 continue;
